@@ -355,3 +355,10 @@ for _pid in ('C11', 'C13'):
     PROPS[_pid]['pyvc'] = list(PROPS[_pid]['pyvc']) + PDA_INIT_JOBS
     PROPS[_pid]['level_text'] = PROPS[_pid]['level_text'].replace(' The rest of the chain is only covered by the bounded stand-in: ', ' Deductive for PDA.__init__ in the four argument shapes the library uses (all seven arguments; without transition function and final states; start state and start stack symbol only; nothing): the new PDA has exactly the given states plus the start and final states, the given input symbols, the given stack alphabet plus the start stack symbol, the transitions of the given transition function, and the given start state, start stack symbol and final states. The rest of the chain is only covered by the bounded stand-in: ', 1)
     PROPS[_pid]['trusted_base'] = [t.replace('the PDA constructor is modelled, not verified; ', 'the PDA constructor is proved to satisfy its model in contracts/pda_init.py; ') for t in PROPS[_pid]['trusted_base']]
+
+# the automaton constructor: proved once (contracts/fa_init.py), listed under the properties whose proved functions build automata with `EpsilonNFA()`
+FA_INIT_JOBS = [('contracts.fa_init', k) for k in ('ENFA.__init__#nothing', 'ENFA.__init__#sets', 'FA.__init__')]
+for _pid in ('C01', 'C03'):
+    PROPS[_pid]['pyvc'] = list(PROPS[_pid]['pyvc']) + FA_INIT_JOBS
+    PROPS[_pid]['level_text'] = PROPS[_pid]['level_text'] + ' Also deductive: EpsilonNFA.__init__ (and FiniteAutomaton.__init__ under it) without arguments - the only shape used inside the library - and with the four sets but no transition function: the new automaton has the given states plus the final and start states, the given symbols, start and final states, and no transition, which is the model every other contract reads `EpsilonNFA()` as (contracts/fa_init.py).'
+    PROPS[_pid]['trusted_base'] = list(PROPS[_pid].get('trusted_base', [])) + ['`EpsilonNFA()` at the call sites is the empty automaton (contracts/fa.py new_automaton); that EpsilonNFA.__init__ satisfies this is proved in contracts/fa_init.py; the constructors of NondeterministicFiniteAutomaton (inherited) and DeterministicFiniteAutomaton (`self._start_state = {}` is a dict) are read as the same model without proof; a transition function passed to the constructor is outside the proved shapes (NondeterministicTransitionFunction defines __len__, so an empty one is replaced by a new object); two fields sharing one set object would not be visible in the view']
